@@ -26,10 +26,139 @@ import (
 	"github.com/segmentio/kafka-go/protocol/offsetfetch"
 )
 
-type stubTransport struct{ res protocol.Message }
+type stubTransport struct {
+	res  protocol.Message
+	seen *protocol.Message // when set, receives the request the client built
+}
 
-func (s stubTransport) RoundTrip(context.Context, net.Addr, kafka.Request) (kafka.Response, error) {
+func (s stubTransport) RoundTrip(_ context.Context, _ net.Addr, req kafka.Request) (kafka.Response, error) {
+	if s.seen != nil {
+		*s.seen = req
+	}
 	return s.res, nil
+}
+
+// fRequests: the request side of the mappings — what the client puts on the wire for a user-level request.
+//
+//	freqofetch <group> <topics|nil|empty>      → "<group>;<NULL | topic:p.p|…>"
+//	freqocommit <gen> <member> <inst> <topics> → "<group>;<gen>;<member>;<inst>;<retention ms>;<topic:p/off/meta,…|…>"
+//	freqlo <iso> <request>                     → "<replica>;<iso>;<topic:p/epoch/ts,…|…>"
+func fRequests(r *rand.Rand, n int) {
+	addr := kafka.TCP("stub:9092")
+	for i := 0; i < n; i++ {
+		var seen protocol.Message
+		// OffsetFetch
+		ureq := &kafka.OffsetFetchRequest{GroupID: "g" + strconv.Itoa(r.Intn(3))}
+		form := "nil"
+		if r.Intn(4) != 0 {
+			ureq.Topics = map[string][]int{}
+			var enc []string
+			for _, nme := range names[:4] {
+				if r.Intn(2) == 0 {
+					continue
+				}
+				var ps []int
+				var x []string
+				for k := 0; k < r.Intn(4); k++ {
+					ps = append(ps, r.Intn(6))
+					x = append(x, strconv.Itoa(ps[k]))
+				}
+				ureq.Topics[nme] = ps
+				enc = append(enc, nme+":"+dash(strings.Join(x, ".")))
+			}
+			form = strings.Join(enc, "|")
+			if len(ureq.Topics) == 0 {
+				form = "empty"
+			}
+		}
+		cl := &kafka.Client{Addr: addr, Transport: stubTransport{res: &offsetfetch.Response{}, seen: &seen}}
+		if _, err := cl.OffsetFetch(context.Background(), ureq); err == nil {
+			pr := seen.(*offsetfetch.Request)
+			body := "NULL"
+			if pr.Topics != nil {
+				ts := append([]offsetfetch.RequestTopic{}, pr.Topics...)
+				sort.Slice(ts, func(a, b int) bool { return ts[a].Name < ts[b].Name })
+				var enc []string
+				for _, t := range ts {
+					var x []string
+					for _, p := range t.PartitionIndexes {
+						x = append(x, strconv.Itoa(int(p)))
+					}
+					enc = append(enc, t.Name+":"+dash(strings.Join(x, ".")))
+				}
+				body = dash(strings.Join(enc, "|"))
+			}
+			emit(fmt.Sprintf("freqofetch %s %s", ureq.GroupID, form), pr.GroupID+";"+body)
+		}
+		// OffsetCommit
+		creq := &kafka.OffsetCommitRequest{GroupID: "g", GenerationID: r.Intn(50), MemberID: "m" + strconv.Itoa(r.Intn(3)), InstanceID: []string{"-", "i1"}[r.Intn(2)], Topics: map[string][]kafka.OffsetCommit{}}
+		var cenc []string
+		for _, nme := range names[:4] {
+			if r.Intn(2) == 0 {
+				continue
+			}
+			var x []string
+			for k := 0; k < 1+r.Intn(3); k++ {
+				oc := kafka.OffsetCommit{Partition: r.Intn(6), Offset: int64(r.Intn(9000)), Metadata: []string{"-", "x", "y2"}[r.Intn(3)]}
+				creq.Topics[nme] = append(creq.Topics[nme], oc)
+				x = append(x, fmt.Sprintf("%d/%d/%s", oc.Partition, oc.Offset, oc.Metadata))
+			}
+			cenc = append(cenc, nme+":"+strings.Join(x, ","))
+		}
+		cl = &kafka.Client{Addr: addr, Transport: stubTransport{res: &offsetcommit.Response{}, seen: &seen}}
+		if _, err := cl.OffsetCommit(context.Background(), creq); err == nil {
+			pr := seen.(*offsetcommit.Request)
+			ts := append([]offsetcommit.RequestTopic{}, pr.Topics...)
+			sort.Slice(ts, func(a, b int) bool { return ts[a].Name < ts[b].Name })
+			var enc []string
+			for _, t := range ts {
+				var x []string
+				for _, p := range t.Partitions {
+					x = append(x, fmt.Sprintf("%d/%d/%s", p.PartitionIndex, p.CommittedOffset, p.CommittedMetadata))
+				}
+				enc = append(enc, t.Name+":"+strings.Join(x, ","))
+			}
+			emit(fmt.Sprintf("freqocommit %d %s %s %s", creq.GenerationID, creq.MemberID, creq.InstanceID, dash(strings.Join(cenc, "|"))),
+				fmt.Sprintf("%s;%d;%s;%s;%d;%s", pr.GroupID, pr.GenerationID, pr.MemberID, pr.GroupInstanceID, pr.RetentionTimeMs, dash(strings.Join(enc, "|"))))
+		}
+		// ListOffsets
+		lts := randomReq(r, 3)
+		lreq := &kafka.ListOffsetsRequest{Topics: map[string][]kafka.OffsetRequest{}, IsolationLevel: kafka.IsolationLevel(r.Intn(2))}
+		var order []string
+		for _, t := range lts {
+			if _, ok := lreq.Topics[t.name]; !ok {
+				order = append(order, t.name)
+				lreq.Topics[t.name] = []kafka.OffsetRequest{}
+			}
+			for _, p := range t.parts {
+				lreq.Topics[t.name] = append(lreq.Topics[t.name], kafka.OffsetRequest{Partition: int(p.part), Timestamp: p.ts})
+			}
+		}
+		sort.Strings(order)
+		var mts []reqTopic
+		for _, nme := range order {
+			t := reqTopic{name: nme}
+			for _, p := range lreq.Topics[nme] {
+				t.parts = append(t.parts, reqPart{int32(p.Partition), p.Timestamp})
+			}
+			mts = append(mts, t)
+		}
+		cl = &kafka.Client{Addr: addr, Transport: stubTransport{res: &listoffsets.Response{}, seen: &seen}}
+		if _, err := cl.ListOffsets(context.Background(), lreq); err == nil {
+			pr := seen.(*listoffsets.Request)
+			ts := append([]listoffsets.RequestTopic{}, pr.Topics...)
+			sort.Slice(ts, func(a, b int) bool { return ts[a].Topic < ts[b].Topic })
+			var enc []string
+			for _, t := range ts {
+				var x []string
+				for _, p := range t.Partitions {
+					x = append(x, fmt.Sprintf("%d/%d/%d", p.Partition, p.CurrentLeaderEpoch, p.Timestamp))
+				}
+				enc = append(enc, t.Topic+":"+dash(strings.Join(x, ",")))
+			}
+			emit(fmt.Sprintf("freqlo %d %s", int(lreq.IsolationLevel), encReq(mts)), fmt.Sprintf("%d;%d;%s", pr.ReplicaID, pr.IsolationLevel, dash(strings.Join(enc, "|"))))
+		}
+	}
 }
 
 // fListOffsets: Client.ListOffsets on an arbitrary (already merged) protocol response handed over by the stub: entries in any
@@ -88,7 +217,7 @@ func fListOffsets(r *rand.Rand, n int) {
 			enc = append(enc, t.name+":"+dash(strings.Join(ps, ",")))
 		}
 		op := "flo " + encReq(mts) + " " + dash(strings.Join(enc, "|"))
-		cl := &kafka.Client{Addr: addr, Transport: stubTransport{res}}
+		cl := &kafka.Client{Addr: addr, Transport: stubTransport{res: res}}
 		out, err := cl.ListOffsets(context.Background(), req)
 		if err != nil {
 			emit(op, "err")
@@ -116,6 +245,7 @@ func fListOffsets(r *rand.Rand, n int) {
 
 func opMappingsF(r *rand.Rand, n int) {
 	fListOffsets(r, n)
+	fRequests(r, n)
 	addr := kafka.TCP("stub:9092")
 	for i := 0; i < n; i++ {
 		// ---- Metadata
@@ -161,7 +291,7 @@ func opMappingsF(r *rand.Rand, n int) {
 			ts = append(ts, fmt.Sprintf("%s:%d:%d:%s", t.Name, t.ErrorCode, in, dash(strings.Join(ps, ","))))
 		}
 		op := fmt.Sprintf("fmeta %d/%s/%s", m.ControllerID, dash(strings.Join(bs, ",")), dash(strings.Join(ts, "|")))
-		cl := &kafka.Client{Addr: addr, Transport: stubTransport{m}}
+		cl := &kafka.Client{Addr: addr, Transport: stubTransport{res: m}}
 		if res, err := cl.Metadata(context.Background(), &kafka.MetadataRequest{}); err != nil {
 			emit(op, "err")
 		} else {
@@ -204,7 +334,7 @@ func opMappingsF(r *rand.Rand, n int) {
 			enc = append(enc, t.Name+":"+dash(strings.Join(ps, ",")))
 		}
 		op = fmt.Sprintf("fofetch %d;%s", of.ErrorCode, dash(strings.Join(enc, "|")))
-		cl = &kafka.Client{Addr: addr, Transport: stubTransport{of}}
+		cl = &kafka.Client{Addr: addr, Transport: stubTransport{res: of}}
 		if res, err := cl.OffsetFetch(context.Background(), &kafka.OffsetFetchRequest{GroupID: "g"}); err != nil {
 			emit(op, "err")
 		} else {
@@ -242,7 +372,7 @@ func opMappingsF(r *rand.Rand, n int) {
 			enc = append(enc, t.Name+":"+dash(strings.Join(ps, ",")))
 		}
 		op = "focommit " + dash(strings.Join(enc, "|"))
-		cl = &kafka.Client{Addr: addr, Transport: stubTransport{oc}}
+		cl = &kafka.Client{Addr: addr, Transport: stubTransport{res: oc}}
 		if res, err := cl.OffsetCommit(context.Background(), &kafka.OffsetCommitRequest{GroupID: "g", Topics: map[string][]kafka.OffsetCommit{"a": {{Partition: 0, Offset: 1}}}}); err != nil {
 			emit(op, "err")
 		} else {
